@@ -237,7 +237,9 @@ Inductive wterm :=
 | WSubq (q : squery) (alias : option string)                                         (* a sub-query used as a term *)
 | WInSub (t : term) (q : squery) (negated : bool) (alias : option string)            (* t IN (sub-query) *)
 | WCmpSub (c : cmp) (l : term) (q : squery) (alias : option string)                  (* l <cmp> (sub-query) *)
-| WExists (q : squery).                                                              (* ExistsCriterion *)
+| WExists (q : squery)                                                               (* ExistsCriterion *)
+| WValue (t : term) (alias : option string)                                         (* ValueWrapper around a term *)
+| WAtTz (f : term) (zone : string) (alias : option string).                         (* AtTimezone *)
 
 Inductive source :=
 | SrcTable (t : tref)
@@ -249,16 +251,33 @@ Inductive qjoin :=
 | JOn (how : string) (item : source) (crit : wterm)            (* JoinOn *)
 | JUsing (how : string) (item : source) (fields : list term).  (* JoinUsing *)
 
+Inductive qkind := QGeneric | QClickHouse | QPostgres | QMySQL.
+Definition kctor (k : qkind) : ctor :=
+  match k with QGeneric => KQuery | QClickHouse => KClickHouse | QPostgres => KPostgres | QMySQL => KMySQL end.
+
 Record stmt := {
-  s_clickhouse : bool;
+  s_kind : qkind;
   s_from : list source; s_insert : option tref; s_update : option tref; s_with : list (string * squery);
   s_selects : list wterm; s_columns : list term; s_values : list (list wterm);
   s_wheres : option wterm; s_prewheres : option wterm; s_groupbys : list wterm; s_havings : option wterm;
   s_orderbys : list (wterm * option string); s_joins : list qjoin; s_updates : list (term * wterm);
   s_star : list tref;              (* _select_star_tables, a set *)
-  s_limit_by : list wterm          (* ClickHouse LIMIT BY columns *)
+  s_limit_by : list wterm;         (* ClickHouse LIMIT BY columns *)
+  s_distinct_on : list wterm;      (* PostgreSQL / ClickHouse DISTINCT ON *)
+  s_returns : list wterm;          (* PostgreSQL RETURNING *)
+  s_using : list tref;             (* PostgreSQL DELETE .. USING tables *)
+  s_dup_updates : list (term * wterm)   (* MySQL ON DUPLICATE KEY UPDATE pairs; values are ValueWrapper-wrapped *)
 }.
-Definition skind (s : stmt) : ctor := if s_clickhouse s then KClickHouse else KQuery.
+Definition skind (s : stmt) : ctor := kctor (s_kind s).
+(* slots that only some builder classes have are empty elsewhere *)
+Definition is_nil {X} (l : list X) : bool := match l with [] => true | _ => false end.
+Definition wf_stmt (s : stmt) : bool :=
+  match s_kind s with
+  | QGeneric => is_nil (s_limit_by s) && is_nil (s_distinct_on s) && is_nil (s_returns s) && is_nil (s_using s) && is_nil (s_dup_updates s)
+  | QClickHouse => is_nil (s_returns s) && is_nil (s_using s) && is_nil (s_dup_updates s)
+  | QPostgres => is_nil (s_limit_by s) && is_nil (s_dup_updates s)
+  | QMySQL => is_nil (s_limit_by s) && is_nil (s_distinct_on s) && is_nil (s_returns s) && is_nil (s_using s)
+  end.
 
 Definition set_add (eqb : tref -> tref -> bool) (x : tref) (l : list tref) : list tref :=
   if existsb (eqb x) l then l else l ++ [x].
@@ -318,6 +337,8 @@ Definition subst_wt (w : wterm) : wterm :=
   | WInSub t q ng al => WInSub (subst t) (subst_q q) ng al
   | WCmpSub c l q al => WCmpSub c (subst l) (subst_q q) al
   | WExists q => WExists (subst_q q)
+  | WValue t al => WValue (subst t) al
+  | WAtTz f z al => WAtTz (subst f) z al
   end.
 
 Definition rep_wt (w : wterm) : wterm :=
@@ -336,6 +357,8 @@ Definition rep_wt (w : wterm) : wterm :=
   | WInSub t q ng al => WInSub (ifv (vis KIn S_term) rep t) (ifv (vis KIn S_container) rep_q q) ng al
   | WCmpSub c l q al => WCmpSub c (ifv (vis KBasic S_left) rep l) (ifv (vis KBasic S_right) rep_q q) al
   | WExists q => WExists (ifv (vis KExists S_container) rep_q q)
+  | WValue t al => WValue (ifv (vis KValue S_value) rep t) al
+  | WAtTz f z al => WAtTz (ifv (vis KAtTz S_field) rep f) z al
   end.
 
 Definition occ_ob (l : list (term * option string)) : bool := existsb (fun p => occ (fst p)) l.
@@ -353,6 +376,8 @@ Definition occ_wt (w : wterm) : bool :=
   | WInSub t q _ _ => occ t || occ_q q
   | WCmpSub _ l q _ => occ l || occ_q q
   | WExists q => occ_q q
+  | WValue t _ => occ t
+  | WAtTz f _ _ => occ f
   end.
 
 Definition cov_wt (w : wterm) : bool :=
@@ -373,6 +398,8 @@ Definition cov_wt (w : wterm) : bool :=
   | WInSub t q _ _ => cov1 (vis KIn S_term) (covered t) (occ t) && cov1 (vis KIn S_container) (cov_q q) (occ_q q)
   | WCmpSub _ l q _ => cov1 (vis KBasic S_left) (covered l) (occ l) && cov1 (vis KBasic S_right) (cov_q q) (occ_q q)
   | WExists q => cov1 (vis KExists S_container) (cov_q q) (occ_q q)
+  | WValue t _ => cov1 (vis KValue S_value) (covered t) (occ t)
+  | WAtTz f _ _ => cov1 (vis KAtTz S_field) (covered f) (occ f)
   end.
 
 (* ---- statements ---- *)
@@ -456,7 +483,7 @@ Definition occ_ws (l : list wterm) : bool := existsb occ_wt l.
 Definition cov_ws (l : list wterm) : bool := forallb cov_wt l.
 
 Definition subst_stmt (s : stmt) : stmt :=
-  {| s_clickhouse := s_clickhouse s;
+  {| s_kind := s_kind s;
      s_from := map subst_src (s_from s); s_insert := subst_otbl (s_insert s); s_update := subst_otbl (s_update s);
      s_with := map (fun p => (fst p, subst_q (snd p))) (s_with s);
      s_selects := map subst_wt (s_selects s); s_columns := map subst (s_columns s);
@@ -467,7 +494,11 @@ Definition subst_stmt (s : stmt) : stmt :=
      s_joins := map subst_join (s_joins s);
      s_updates := map (fun p => (subst (fst p), subst_wt (snd p))) (s_updates s);
      s_star := sw_star (s_star s);
-     s_limit_by := map subst_wt (s_limit_by s) |}.
+     s_limit_by := map subst_wt (s_limit_by s);
+     s_distinct_on := map subst_wt (s_distinct_on s);
+     s_returns := map subst_wt (s_returns s);
+     s_using := map sw_tbl (s_using s);
+     s_dup_updates := map (fun p => (subst (fst p), subst_wt (snd p))) (s_dup_updates s) |}.
 
 Definition rep_withs (s : stmt) : res (list (string * squery)) :=
   if vis (skind s) S__with
@@ -484,7 +515,7 @@ Definition rep_joins (s : stmt) : res (list qjoin) :=
   if vis (skind s) S__joins then mapM rep_join (s_joins s) else Ok (s_joins s).
 Definition rep_stmt_core (s : stmt) (withs : list (string * squery)) (joins : list qjoin) : stmt :=
   let k := skind s in
-  {| s_clickhouse := s_clickhouse s;
+  {| s_kind := s_kind s;
      s_from := ifv (vis k S__from) (map (src_total (c_src_mode cf KQuery))) (s_from s);
      s_insert := ifv (vis k S__insert_table) subst_otbl (s_insert s);
      s_update := ifv (vis k S__update_table) subst_otbl (s_update s);
@@ -501,7 +532,12 @@ Definition rep_stmt_core (s : stmt) (withs : list (string * squery)) (joins : li
      (* QueryBuilder.set() wraps every value in a ValueWrapper, whose own replace_table decides about the payload *)
      s_updates := ifv (vis k S__updates) (map (fun p => (rep (fst p), ifv (vis KValue S_value) rep_wt (snd p)))) (s_updates s);
      s_star := ifv (vis k S__select_star_tables) sw_star (s_star s);
-     s_limit_by := ifv (vis k S__limit_by) (map rep_wt) (s_limit_by s) |}.
+     s_limit_by := ifv (vis k S__limit_by) (map rep_wt) (s_limit_by s);
+     s_distinct_on := ifv (vis k S__distinct_on) (map rep_wt) (s_distinct_on s);
+     s_returns := ifv (vis k S__returns) (map rep_wt) (s_returns s);
+     s_using := ifv (vis k S__using) (map sw_tbl) (s_using s);
+     s_dup_updates := ifv (vis k S__duplicate_updates)
+                          (map (fun p => (rep (fst p), ifv (vis KValue S_value) rep_wt (snd p)))) (s_dup_updates s) |}.
 (* QueryBuilder.replace_table: _with first, _joins later; either may raise *)
 Definition rep_stmt (s : stmt) : res stmt :=
   match rep_withs s with
@@ -531,6 +567,80 @@ Definition cov_stmt (s : stmt) : bool :=
           (forallb (fun p => covered (fst p) && cov1 (vis KValue S_value) (cov_wt (snd p)) (occ_wt (snd p))) (s_updates s))
           (existsb (fun p => occ (fst p) || occ_wt (snd p)) (s_updates s))
   && cov1 (vis k S__select_star_tables) true (existsb hit (s_star s))
-  && cov1 (vis k S__limit_by) (cov_ws (s_limit_by s)) (occ_ws (s_limit_by s)).
+  && cov1 (vis k S__limit_by) (cov_ws (s_limit_by s)) (occ_ws (s_limit_by s))
+  && cov1 (vis k S__distinct_on) (cov_ws (s_distinct_on s)) (occ_ws (s_distinct_on s))
+  && cov1 (vis k S__returns) (cov_ws (s_returns s)) (occ_ws (s_returns s))
+  && cov1 (vis k S__using) true (existsb hit (s_using s))
+  && cov1 (vis k S__duplicate_updates)
+          (forallb (fun p => covered (fst p) && cov1 (vis KValue S_value) (cov_wt (snd p)) (occ_wt (snd p))) (s_dup_updates s))
+          (existsb (fun p => occ (fst p) || occ_wt (snd p)) (s_dup_updates s)).
 
 End RTW.
+
+(* ------------------------------------------------------------------------------------------ *)
+(* the completely visited configuration                                                        *)
+(* ------------------------------------------------------------------------------------------ *)
+Section SF.
+Variable A : tref.
+Definition sfs (l : list term) : bool := forallb (sub_foreign A) l.
+Definition sf_ot (o : option term) : bool := match o with Some t => sub_foreign A t | None => true end.
+Definition sf_q (q : squery) : bool := sfs (sq_selects q) && sf_ot (sq_where q).
+Definition sf_wt (w : wterm) : bool :=
+  match w with
+  | WT t => sub_foreign A t
+  | WAgg _ a f _ => sfs a && sfs f
+  | WAnalytic _ a f p o _ => sfs a && sfs f && sfs p && forallb (fun x => sub_foreign A (fst x)) o
+  | WExtract _ f _ => sub_foreign A f
+  | WPeriod t lo hi _ => sub_foreign A t && sub_foreign A lo && sub_foreign A hi
+  | WNested _ _ l r n _ => sub_foreign A l && sub_foreign A r && sub_foreign A n
+  | WSubq q _ => sf_q q
+  | WInSub t q _ _ => sub_foreign A t && sf_q q
+  | WCmpSub _ l q _ => sub_foreign A l && sf_q q
+  | WExists q => sf_q q
+  | WValue t _ => sub_foreign A t
+  | WAtTz f _ _ => sub_foreign A f
+  end.
+Definition sf_ws (l : list wterm) : bool := forallb sf_wt l.
+Definition sf_ow (o : option wterm) : bool := match o with Some w => sf_wt w | None => true end.
+Definition sf_src (x : source) : bool := match x with SrcSub q _ => sf_q q | _ => true end.
+Definition sf_join (j : qjoin) : bool :=
+  match j with
+  | JCross i => sf_src i
+  | JOn _ i c => sf_src i && sf_wt c
+  | JUsing _ i fs => sf_src i && sfs fs
+  end.
+Definition sf_stmt (s : stmt) : bool :=
+  forallb sf_src (s_from s) && forallb (fun p => sf_q (snd p)) (s_with s) && sf_ws (s_selects s) && sfs (s_columns s)
+  && forallb sf_ws (s_values s) && sf_ow (s_wheres s) && sf_ow (s_prewheres s) && sf_ws (s_groupbys s) && sf_ow (s_havings s)
+  && forallb (fun p => sf_wt (fst p)) (s_orderbys s) && forallb sf_join (s_joins s)
+  && forallb (fun p => sub_foreign A (fst p) && sf_wt (snd p)) (s_updates s) && sf_ws (s_limit_by s)
+  && sf_ws (s_distinct_on s) && sf_ws (s_returns s)
+  && forallb (fun p => sub_foreign A (fst p) && sf_wt (snd p)) (s_dup_updates s).
+End SF.
+
+(* the (class, slot) pairs of the wrapper terms, sub-queries, joins and statements of the model *)
+Definition wrapper_pairs : list (ctor * slot) :=
+  [(KPeriod, S_term); (KPeriod, S_start); (KPeriod, S_end); (KNested, S_left); (KNested, S_right); (KNested, S_nested);
+   (KAgg, S_args); (KAgg, S__filters); (KAnalytic, S_args); (KAnalytic, S__filters); (KAnalytic, S__partition);
+   (KAnalytic, S__orderbys); (KExtract, S_field); (KExists, S_container); (KValue, S_value); (KAtTz, S_field);
+   (KJoin, S_item); (KJoinOn, S_item); (KJoinOn, S_criterion); (KJoinUsing, S_item); (KJoinUsing, S_fields)].
+Definition query_slots : list slot :=
+  [S__from; S__insert_table; S__update_table; S__with; S__selects; S__columns; S__values; S__wheres; S__prewheres;
+   S__groupbys; S__havings; S__orderbys; S__joins; S__updates; S__select_star_tables].
+Definition kind_slots (k : qkind) : list slot :=
+  query_slots ++ match k with
+                 | QGeneric => []
+                 | QClickHouse => [S__limit_by; S__distinct_on]
+                 | QPostgres => [S__distinct_on; S__returns; S__using]
+                 | QMySQL => [S__duplicate_updates]
+                 end.
+Definition is_enter (m : srcmode) : bool := match m with MCmpEnter => true | _ => false end.
+(* every slot of every modelled class is entered; WITH bodies are rebuilt; FROM entries and join items are compared and,
+   when they are sub-queries, entered *)
+Definition full_cfg (cf : cfg) : bool :=
+  term_slots_all_visited cf
+  && forallb (fun p => cvis cf (fst p) (snd p)) wrapper_pairs
+  && forallb (fun k => forallb (cvis cf (kctor k)) (kind_slots k)) [QGeneric; QClickHouse; QPostgres; QMySQL]
+  && negb (c_with_by_call cf)
+  && is_enter (c_src_mode cf KQuery) && is_enter (c_src_mode cf KJoin) && is_enter (c_src_mode cf KJoinOn)
+  && is_enter (c_src_mode cf KJoinUsing).
